@@ -50,13 +50,15 @@ func c04Events(p c04Params) []string {
 	for i := 0; i < p.N; i++ {
 		ev = append(ev, fmt.Sprintf("flip-500:b%d", i))
 	}
+	// a backend that accepts and never answers in time: the failure arrives as a timeout error
+	ev = append(ev, "flip-timeout:b0")
 	if vres.Thorough() {
-		ev = append(ev, "flip-refuse:b0")
+		ev = append(ev, "flip-refuse:b0", "flip-garbage:b0")
 	}
 	if p.Active {
 		ev = append(ev, "tick")
 	}
-	ev = append(ev, "clock+4s(<window)", "clock+11s(>window)")
+	ev = append(ev, "clock+4s(<window)", "clock+11s(>window)", "clock+9.7s(just-inside)", "clock+0.6s")
 	return ev
 }
 
@@ -181,11 +183,8 @@ func (in *c04Inst) Step(ev int) *vh.HViol {
 		if v := in.doRequest(e[4:]); v != nil {
 			return v
 		}
-	case strings.HasPrefix(e, "flip-500:"), strings.HasPrefix(e, "flip-refuse:"):
-		bad := "500"
-		if strings.HasPrefix(e, "flip-refuse:") {
-			bad = "refuse"
-		}
+	case strings.HasPrefix(e, "flip-"):
+		bad := e[len("flip-"):strings.Index(e, ":")]
 		st := in.k.stub(e[strings.Index(e, ":")+1:])
 		if st.mode == "ok" {
 			st.mode, st.probeMode = bad, bad
@@ -200,6 +199,10 @@ func (in *c04Inst) Step(ev int) *vh.HViol {
 		in.s.AdvanceQuiet(4 * time.Second)
 	case e == "clock+11s(>window)":
 		in.s.AdvanceQuiet(11 * time.Second)
+	case e == "clock+9.7s(just-inside)":
+		in.s.AdvanceQuiet(9700 * time.Millisecond)
+	case e == "clock+0.6s":
+		in.s.AdvanceQuiet(600 * time.Millisecond)
 	}
 	return in.observe(pf, pok)
 }
@@ -272,6 +275,7 @@ func (in *c04Inst) Fingerprint() string {
 			fmt.Fprintf(&b, "|m%v", bm.IsHealthy)
 		}
 	}
+	b.WriteString(in.k.novel())
 	return b.String()
 }
 
